@@ -6,11 +6,12 @@ def core_schema(mutation=True, subscription=True):
     types = [
         iface("Node", [("id", "ID!"), ("label", "String")]),
         iface("Named", [("name", "String!")]),
-        obj("User", [("id", "ID!"), ("label", "String"), ("name", "String!"), ("age", "Int"), ("friend", "Node"),
+        obj("User", [("id", "ID!"), ("label", "String"), ("name", "String!"), ("age", "Int"), ("extId", "ID"), ("friend", "Node"),
                      ("friends", "[User!]!"), ("tags", "[String]"), ("pet", "Pet"), ("role", "Role"),
                      ("since", "Date"), ("score", "Float"), ("active", "Boolean!"),
                      FieldDef("legacy", "String", dep=("use label",))], ["Node", "Named"]),
-        obj("Org", [("id", "ID!"), ("label", "String"), ("name", "String!"), ("members", "[User!]"),
+        # Org refines the interface's nullable `label` to non-null (legal covariance)
+        obj("Org", [("id", "ID!"), ("label", "String!"), ("name", "String!"), ("members", "[User!]"),
                     ("owner", "User!"), ("kind", "Role!")], ["Node", "Named"]),
         obj("Bot", [("id", "ID!"), ("label", "String"), ("version", "Int!")], ["Node"]),
         obj("Cat", [("name", "String!"), ("lives", "Int")]),
@@ -35,7 +36,7 @@ def core_schema(mutation=True, subscription=True):
         inp("Filter", [("text", "String"), ("role", "Role"), ("ids", "[ID!]"), ("and", "Filter"),
                        ("not", "[Filter!]"), ("range", "Range!"), ("pick", "Pick")]),
         inp("Range", [("from", "Int"), ("to", "Int")]),
-        inp("Pick", [("byId", "ID"), ("byName", "String"), ("byRange", "Range")], one_of=True),
+        inp("Pick", [("byId", "ID"), ("byName", "String"), ("byRange", "Range"), ("by_handle", "String"), ("userID", "ID")], one_of=True),
     ]
     roots = {"query": "Q"}
     if mutation:
@@ -59,6 +60,7 @@ def fragment_library():
     F["ThingF"] = FragDef("ThingF", "Thing", [TN(), Inline("Cat", [Field("lives")])])
     F["QF"] = FragDef("QF", "Q", [Field("version")])
     F["UserT"] = FragDef("UserT", "User", [TN(), Field("name")])
+    F["UserX"] = FragDef("UserX", "User", [Field("extId"), Field("age")])
     F["CatT"] = FragDef("CatT", "Cat", [TN(), Field("lives")])
     F["UserRec"] = FragDef("UserRec", "User", [Field("id"), Field("friends", [Spread("UserRec")])])
     F["NodeRec"] = FragDef("NodeRec", "Node", [TN(), Field("id"),
@@ -95,7 +97,7 @@ def items_user():
         ("pet", Field("pet", [TN(), Inline("Cat", [Field("lives")])])), ("__typename", TN()),
         ("...UserA", Spread("UserA")), ("...UserB", Spread("UserB")), ("...NodeF", Spread("NodeF")),
         ("on User", Inline("User", [Field("age")])), ("on Node", Inline("Node", [Field("label")])),
-        ("...UserRec", Spread("UserRec")),
+        ("...UserRec", Spread("UserRec")), ("extId", Field("extId")), ("...UserX", Spread("UserX")),
     ]
 
 
@@ -106,6 +108,7 @@ def items_node():
         ("on Org{name}", Inline("Org", [Field("name")])), ("on Node{label}", Inline("Node", [Field("label")])),
         ("...NodeF", Spread("NodeF")), ("...UserA", Spread("UserA")), ("...UserB", Spread("UserB")),
         ("...OrgF", Spread("OrgF")), ("...NodeRec", Spread("NodeRec")), ("...UserT", Spread("UserT")),
+        ("on User{extId}", Inline("User", [Field("extId")])), ("...UserX", Spread("UserX")), ("on Org{label}", Inline("Org", [Field("label")])),
     ]
 
 
